@@ -502,11 +502,90 @@ func judged(c Case) *ev.Verdict {
 
 func registerAll() {
 	ev.Register("projects", judged)
+	ev.Register("recursive", judgedRecursive)
 }
 
 func TestPropProjects(t *testing.T) {
 	registerAll()
 	ev.Rapid(t, "projects", ev.N(2500, 8000), genCase, judged)
+}
+
+// ---- recursive projects: types that refer to each other through optional links, array items and choices,
+// alias types (a type whose body is a reference); every root has a finite instance, so its example must be
+// an instance of its own conversion - in particular hold every required property at every level
+
+func genRecursive(t *rapid.T) Case {
+	objs := []string{"@r0", "@r1", "@r2"}[:rapid.IntRange(1, 3).Draw(t, "nobj")]
+	p := &model.Project{}
+	p.Types = append(p.Types, model.Type{Name: "@leaf", Node: model.Scalar("string", `"leaf"`)})
+	aliasOf := rapid.SampledFrom(objs).Draw(t, "aliasof")
+	alias := model.Ref(aliasOf)
+	if rapid.IntRange(0, 3).Draw(t, "aliaschoice") == 0 {
+		alias = model.Choice(aliasOf, "@leaf")
+	}
+	p.Types = append(p.Types, model.Type{Name: "@al", Node: alias})
+	opt := func(n *model.Node) *model.Node {
+		n.Rules = append(n.Rules, model.R("optional", model.Bool(true)))
+		return n
+	}
+	link := func(label string, mandatoryOK bool) *model.Node {
+		target := rapid.SampledFrom(append(append([]string{}, objs...), "@al")).Draw(t, label+"target")
+		switch rapid.IntRange(0, 5).Draw(t, label+"how") {
+		case 0:
+			return model.Arr().Item(model.Ref(target))
+		case 1:
+			return model.Choice(target, "@leaf") // satisfiable through the leaf
+		case 2:
+			return model.Choice("@leaf", target)
+		case 3:
+			n := model.Ref(target)
+			n.Rules = append(n.Rules, model.R("nullable", model.Bool(true)))
+			return n
+		default:
+			if mandatoryOK {
+				return model.Ref(target)
+			}
+			return opt(model.Ref(target))
+		}
+	}
+	for _, name := range objs {
+		o := model.Obj()
+		n := rapid.IntRange(1, 4).Draw(t, name+"n")
+		for i := 0; i < n; i++ {
+			key := fmt.Sprintf("%s_%d", name[1:], i)
+			switch rapid.IntRange(0, 4).Draw(t, name+key) {
+			case 0:
+				o.Add(key, model.Scalar("integer", "1"))
+			case 1:
+				o.Add(key, model.Ref("@leaf"))
+			default:
+				o.Add(key, link(name+key, false))
+			}
+		}
+		p.Types = append(p.Types, model.Type{Name: name, Node: o})
+	}
+	root := model.Obj()
+	n := rapid.IntRange(2, 4).Draw(t, "rootn")
+	for i := 0; i < n; i++ {
+		root.Add(fmt.Sprintf("p%d", i), link(fmt.Sprintf("root%d", i), true))
+	}
+	p.Root = root
+	return Case{P: p}
+}
+
+func judgedRecursive(c Case) *ev.Verdict {
+	if c.P != nil && c.P.Root != nil && graph.Finite(c.P)["@main"] {
+		ev.NonTrivial("recursive", c.P.Text(nil).String())
+		if ev.WantSample("recursive") {
+			ev.Sample("recursive", c.P.Text(nil))
+		}
+	}
+	return oracle(c)
+}
+
+func TestPropRecursive(t *testing.T) {
+	registerAll()
+	ev.Rapid(t, "recursive", ev.N(1500, 8000), genRecursive, judgedRecursive)
 }
 
 func TestPropRegressions(t *testing.T) {
